@@ -121,7 +121,7 @@ def build(env, spec):
                 for rn, q in s.get("res", {"CPU": 1}).items():
                     res[rn] = val(env, q, f"dem_{tname}_{si}_{rn}", 0, 2 ** 20)
                 strats.append(ExecutionStrategy(
-                    resources=Resources({Resource(name=rn, _id="any"): q for rn, q in res.items()}, _logger=NULL),
+                    resources=Resources({Resource(name=rn.split("#")[0], _id=rn.split("#")[1] if "#" in rn else "any"): q for rn, q in res.items()}, _logger=NULL),
                     batch_size=1, runtime=ET(rt)))
                 sparams.append({"rt": rt, "res": res})
             if shared:
@@ -178,12 +178,14 @@ def build(env, spec):
         for wi, caps in enumerate(pw):
             if isinstance(caps, dict):
                 entries = [(rn, val(env, q, f"cap_{pi}_{wi}_{rn}", 0, 2 ** 20)) for rn, q in caps.items()]
-            else:  # list of [name, quantity]: several instances of one resource type, in this order
-                entries = [(rn, val(env, q, f"cap_{pi}_{wi}_{rn}{ei}", 0, 2 ** 20)) for ei, (rn, q) in enumerate(caps)]
+            else:  # list of [name, quantity] or [name, quantity, instance id]: several instances of one resource type, in this order
+                entries = [(e[0], val(env, e[1], f"cap_{pi}_{wi}_{e[0]}{ei}", 0, 2 ** 20)) + tuple(e[2:3]) for ei, e in enumerate(caps)]
             cv = {}
-            for rn, q in entries:
-                cv[rn] = cv.get(rn, 0) + q
-            wk = Worker(name=f"W{pi}_{wi}", resources=Resources({Resource(name=rn): q for rn, q in entries}, _logger=NULL), _logger=NULL)
+            for e in entries:
+                cv[e[0]] = cv.get(e[0], 0) + e[1]
+                if len(e) > 2:  # a named instance: pinned requests are checked against it
+                    cv[f"{e[0]}#{e[2]}"] = e[1]
+            wk = Worker(name=f"W{pi}_{wi}", resources=Resources({(Resource(name=e[0], _id=e[2]) if len(e) > 2 else Resource(name=e[0])): e[1] for e in entries}, _logger=NULL), _logger=NULL)
             ws.append(wk)
             W.workers.append((pi, wk, cv))
         pools.append(WorkerPool(name=f"P{pi}", workers=ws, _logger=NULL))
@@ -207,7 +209,7 @@ def build(env, spec):
     W.sched_runtime = srt
     enf = spec.get("enforce_deadlines", False)
     if pol == "EDF":
-        sch = EDFScheduler(runtime=ET(srt), enforce_deadlines=enf)
+        sch = EDFScheduler(runtime=ET(srt), enforce_deadlines=enf, preemptive=spec.get("preemptive", False))
     elif pol == "FIFO":
         sch = FIFOScheduler(runtime=ET(srt), enforce_deadlines=enf)
     elif pol == "LSF":
@@ -300,7 +302,13 @@ class Monitor:
         tp = self.W.task_params[tn]
         for so, sp in zip(tp["strat_objs"], tp["strategies"]):
             if so is st:
-                return sp["res"].get(rn, 0)
+                if "#" in rn:  # a named instance: what is pinned to it
+                    return sp["res"].get(rn, 0)
+                d = 0
+                for k, q in sp["res"].items():
+                    if k.split("#")[0] == rn:
+                        d = d + q
+                return d
         return st.resources.get_total_quantity(Resource(name=rn, _id="any"))
 
     def used(self, wid, rn):
@@ -346,6 +354,8 @@ class Monitor:
         for wid, (pi, wk, caps) in self.live.items():
             for rn, cap in caps.items():
                 self.req("C01", "within-capacity", self.used(wid, rn) <= cap, tag)
+                if "#" in rn:
+                    continue
                 r = Resource(name=rn, _id="any")
                 self.req("C01", "ledger-nonnegative", sand(wk.resources.get_available_quantity(r) >= 0,
                                                           wk.resources.get_allocated_quantity(r) >= 0), tag)
